@@ -148,6 +148,27 @@ func runC04(c *core.Ctx) {
 		}
 		c04Decode(cs, "canonical/"+k.String(), k, e.B, quantise(v), v, kfs...)
 	})
+	// (0a) reference encodings of 64 KiB and more (one huge XR block / SDES chunk / APP payload, or
+	// very many small ones): the sizes at which 16-bit byte arithmetic in a decoder wraps (seed C04p)
+	c.Section("big-encodings", c.N(300, 6000), func(cs *core.Case) {
+		v := gen.BigPacket(cs.R)
+		if gen.IsKF2(v) {
+			// a CCFB block with exactly one metric block (open finding KF2) is outside this section,
+			// as it is outside the canonical one (which draws values without AllowKF)
+			cs.Count("big/skipped-KF2-value")
+			return
+		}
+		e, err := ref.Encode(v, ref.Lib)
+		if err != nil {
+			return
+		}
+		k := gen.KindOf(v)
+		var kfs []string
+		if gen.IsKF3(v) {
+			kfs = append(kfs, "KF3")
+		}
+		c04Decode(cs, "big/"+k.String(), k, e.B, quantise(v), v, kfs...)
+	})
 	// (0b) RFC dialect for the two pinned deviations
 	c.Section("rfc-dialect", c.N(40000, 600000), func(cs *core.Case) {
 		if cs.Idx%2 == 0 {
